@@ -189,7 +189,8 @@ def malformed_cases(draw, tier):
     k = width(name)
     kind = draw(st.sampled_from(["mixed_batch", "float", "bool", "wrong_width", "zero_rows", "three_d", "list",
                                  "row_vector", "float_integral", "valid_batch", "int32", "empty_list", "uint_descending",
-                                 "flat_multiple"]))
+                                 "flat_multiple", "narrow_dtype_overflow", "pandas_float", "pandas_int", "pandas_bool",
+                                 "series_float"]))
     case = {"scorer": name, "n": n, "p": p, "kind": kind}
     rows = [sorted(draw(st.lists(st.integers(-2, n + 2), min_size=k, max_size=k))) for _ in range(draw(st.integers(1, 5)))]
     case["rows"] = rows
@@ -237,6 +238,25 @@ def check_malformed(case):
         arg = [int(v) for r in valid_pool[:2] for v in r]
         if case["p"] == 2:
             arg = np.asarray(arg, dtype=np.int64)
+    elif kind == "narrow_dtype_overflow":
+        # rows whose difference overflows the (signed) dtype: descending and out of range, never valid
+        dt, big = [(np.int8, 100), (np.int8, 127), (np.int16, 30000), (np.int32, 2 ** 31 - 1), (np.int64, 2 ** 63 - 1)][(n + p) % 5]
+        row = [big] + [-big - (0 if big < 127 else 1)] * (k - 1) if k == 2 else [big] + [-(big // 2) - j for j in range(k - 1)]
+        arg = np.asarray([row, row] if n % 2 else [row], dtype=dt)
+    elif kind in ("pandas_float", "series_float", "pandas_bool"):
+        import pandas as pd
+        base = np.asarray(valid_pool[:2], dtype=float) + (0.5 if n % 2 else 0.0)
+        if kind == "pandas_bool":
+            arg = pd.DataFrame(np.ones((2, k), dtype=bool))
+        elif kind == "series_float":
+            arg = pd.Series(base[0])
+        else:
+            arg = pd.DataFrame(base)
+    elif kind == "pandas_int":
+        import pandas as pd
+        rows = valid_pool[:3]
+        arg = pd.DataFrame(np.asarray(rows, dtype=np.int64), columns=[f"c{j}" for j in range(k)])
+        expect_error = False
     elif kind == "float":
         arg = np.asarray(valid_pool[:2], dtype=float) + 0.5
     elif kind == "float_integral":
@@ -299,6 +319,6 @@ FACETS = [
           shards_quick=16, shards_thorough=16, max_samples=2),
     Facet(name="malformed_arrays", check=check_malformed, strategy=malformed_cases,
           rule=("batches mixing valid and invalid rows, float / integral-float / bool / int32 / wrong-width / 0-row / 3-D "
-                "arrays, nested lists, 1-D row vectors, empty list, descending rows in unsigned dtypes, flat sequences holding several cuts; every case is non-trivial"),
+                "arrays, nested lists, 1-D row vectors, empty list, descending rows in unsigned dtypes, rows whose difference overflows a narrow signed dtype, flat sequences holding several cuts, pandas containers (float / bool rejected, int64 accepted); every case is non-trivial"),
           n_quick=600, n_thorough=6000, shards_quick=4, shards_thorough=8),
 ]
